@@ -349,8 +349,8 @@ def state_lines(vals, ncalls=1, kind_line=None, explore=0):
     g = lambda name, i: vals.get(name, {}).get(i, 0)
     lines = ['state %d %d %d %d' % (vals.get('h_last_now', 0), vals.get('h_pre_ttl', 0), vals.get('h_pre_tick', 0), n)]
     for i in range(n):
-        lines.append('e %d %d %d %d %d' % (g('h_pre_k', i) & (2**64 - 1), g('h_pre_v', i) & (2**64 - 1), g('h_pre_d', i),
-                                           g('h_pre_cnt', i) & (2**64 - 1), g('h_pre_age', i)))
+        lines.append('e %d %d %d %d %d %d' % (g('h_pre_k', i) & (2**64 - 1), g('h_pre_v', i) & (2**64 - 1), g('h_pre_d', i),
+                                              g('h_pre_cnt', i) & (2**64 - 1), g('h_pre_age', i), g('h_pre_o2', i) & 0xffff))
     if kind_line:
         lines.append(kind_line)
     if explore:
